@@ -81,7 +81,7 @@ Proof. exact handle_error_unchanged. Qed.
 Print Assumptions C01_failed_requests_change_nothing.
 
 Theorem C01_observers_pure : forall cfg pol u s r,
-  match r with RGet _ | RPropfind _ _ | RMultiget _ _ _ => True | _ => False end ->
+  match r with RGet _ | RPropfind _ _ | RMultiget _ _ _ | RQuery _ _ _ => True | _ => False end ->
   fst (handle cfg pol u s r) = ensure_home pol s u.
 Proof. exact observers_pure. Qed.
 Print Assumptions C01_observers_pure.
